@@ -837,6 +837,11 @@ def run(eng, run):
     run.attempt(check_consume_once, eng, run)
     run.attempt(check_tbl, eng, run)
     run.attempt(check_copy, eng, run)
+    from sa.analyses.sharing import check_fresh_receive_buffers
+    run.attempt(check_fresh_receive_buffers, eng, run, "C01.copy", 3)
+    from rules import c07 as _c07
+    from sa.report import RuleAlias as _RA
+    run.attempt(_c07.check_early, eng, _RA(run, "C01.rem"))  # the limit is measured on the frame, not on what is buffered behind it
     run.attempt(check_esc, eng, run)
     run.attempt(check_json_close, eng, run)
     run.attempt(check_stapled_dispatch, eng, run)
